@@ -282,7 +282,47 @@ def check_cli(case, ev):
     return None
 
 
-REPLAY = {"bulk": check_bulk, "int": check_int, "file": check_file, "cli": check_cli, "sameobj": check_sameobj}
+def check_pwdline(case, ev):
+    """Lines holding an address AND a secret: forward with -p -a, back with -p -u (fresh objects, same salt
+    and options): every address token comes back as written.  case: {cfg, tpl, addrs, mask, secret}"""
+    from .c05 import PWD_TEMPLATES
+
+    cfg = case["cfg"]
+    tpl = PWD_TEMPLATES[case["tpl"]]
+    it = iter(case["addrs"])
+    parts, at = [], {}
+    for i, t in enumerate(tpl.split(" ")):
+        if t.startswith("{a}"):
+            sp = G.v4_canon(next(it)) + t[3:]
+            at[i] = sp
+            parts.append(sp)
+        elif t == "{m}":
+            at[i] = G.v4_canon(case["mask"])
+            parts.append(at[i])
+        else:
+            parts.append(t.replace("{s}", case["secret"]))
+    line = " ".join(parts)
+    fa, exc = guarded(G.file_anonymizer, cfg, False, anon_pwd=True)
+    if exc is not None:
+        return core.exc_finding(exc, case, "ctor/")
+    fwd, exc = guarded(core.run_io, fa, line + "\n")
+    if exc is not None:
+        return core.exc_finding(exc, case, "anonymize/")
+    fu, exc = guarded(G.file_anonymizer, cfg, True, anon_pwd=True)
+    if exc is not None:
+        return core.exc_finding(exc, case, "ctor/")
+    back, exc = guarded(core.run_io, fu, fwd)
+    if exc is not None:
+        return core.exc_finding(exc, case, "undo/")
+    ev.case(case, fwd != line + "\n", ["address-and-secret-on-one-line", "tpl%02d" % case["tpl"]])
+    bp = back.rstrip("\n").split(" ")
+    for i, want in at.items():
+        if i >= len(bp) or bp[i] != want:
+            return Finding("pwdline/undo-does-not-restore-an-address-next-to-a-secret", "cfg=%r: %r -> %r -> %r (token %d should be %r again)" % (cfg, line, fwd, back, i, want), case)
+    return None
+
+
+REPLAY = {"pwdlines": check_pwdline, "bulk": check_bulk, "int": check_int, "file": check_file, "cli": check_cli, "sameobj": check_sameobj}
 
 
 @st.composite
@@ -386,6 +426,20 @@ def t_cli(shard, nshards, seed, ev, known, n=10):
     return core.hyp_drive(_cli_case(), check_cli, n, seed, ev, known, check_name="cli", shrink=False)
 
 
+@st.composite
+def _pwdline_case(draw):
+    from .c05 import MASKS, PWD_TEMPLATES
+
+    cfg = draw(G.config())
+    tpl = draw(st.integers(0, len(PWD_TEMPLATES) - 1))
+    addrs = [draw(G.u32.filter(lambda x: not G.is_mask(x))) for _ in range(PWD_TEMPLATES[tpl].count("{a}"))]
+    return {"cfg": cfg, "tpl": tpl, "addrs": addrs, "mask": draw(st.sampled_from(MASKS)), "secret": draw(st.sampled_from(["Secr3tKey", "c0mmunity-X", "Zx81Qp"]))}
+
+
+def t_pwdlines(shard, nshards, seed, ev, known, n=300):
+    return core.hyp_drive(_pwdline_case(), check_pwdline, n, seed, ev, known, check_name="pwdlines")
+
+
 def plan(tier):
     q = tier == "quick"
     return [
@@ -394,4 +448,5 @@ def plan(tier):
         Task("cli", t_cli, shards=2 if q else 16, n=6 if q else 40),
         Task("bulk", t_bulk, shards=3 if q else 8, n=1 if q else 4, size=24000 if q else 60000),
         Task("sameobj", t_sameobj, shards=3 if q else 16, n=250 if q else 2000),
+        Task("pwdlines", t_pwdlines, shards=2 if q else 8, n=300 if q else 5000),
     ]
